@@ -262,8 +262,10 @@ def marker_node(src: str, lay: dict) -> dict:
                 sub = ast.parse(n.value, mode="eval")
                 for m in ast.walk(sub):
                     if isinstance(m, ast.Attribute) and m.attr == MARK:
+                        # lineno / col: inside the string; alineno / acol: the annotation expression (here the string
+                        # constant itself) in the file
                         return {"haspos": True, "lineno": m.lineno, "col": m.col_offset, "end_lineno": m.end_lineno,
-                                "end_col": m.end_col_offset, "fwd": True}
+                                "end_col": m.end_col_offset, "fwd": True, "alineno": n.lineno, "acol": n.col_offset}
         raise core.MachineryError(f"no marker in string annotation of layout {lay}")
     for n in ast.walk(tree):
         hit = (isinstance(n, ast.Call) and isinstance(n.func, ast.Name) and n.func.id == "int") if site == "mlcall" else (
@@ -274,7 +276,7 @@ def marker_node(src: str, lay: dict) -> dict:
                 if seg != MARK:
                     raise core.MachineryError(f"oracle: line model disagrees with CPython's node position: {seg!r} for {lay}")
             return {"haspos": True, "lineno": n.lineno, "col": n.col_offset, "end_lineno": n.end_lineno,
-                    "end_col": n.end_col_offset, "fwd": False}
+                    "end_col": n.end_col_offset, "fwd": False, "alineno": n.lineno, "acol": n.col_offset}
     raise core.MachineryError(f"no marker node in layout {lay}")
 
 
@@ -514,7 +516,8 @@ def selftest_trace_oracle(check: core.Check) -> None:
         return out
 
     I1 = {"k": "known", "o": {"c": "int", "v": "1", "items": []}}
-    expect = {
+    HR = {"k": "known", "o": {"c": "odd", "v": "hashraises_rt", "items": []}}
+    expect: dict[int, tuple[str, list[dict]]] = {
         1: ("ok", case(1, {})),
         2: ("viol:IllFormedDiagnostic", case(2, {"col": 40, "origin": "none"})),            # column beyond the line
         3: ("viol:IllFormedDiagnostic", case(3, {"lineno": 10, "origin": "none"})),         # line beyond the file
@@ -529,8 +532,26 @@ def selftest_trace_oracle(check: core.Check) -> None:
         12: ("viol:CheckRaised", case(12, None, {"tid": 12, "event": "Raised", "exc": "X"})),
         13: ("viol:ValueOperationRaised", [{"tid": 13, "event": "ValueOp", "a": I1, "b": I1, "fails": [{"op": "hash", "exc": "RuntimeError: __hash__ raises"}]}]),
         14: ("viol:RuntimeApiRaised", [{"tid": 14, "event": "RtOp", "o": I1["o"], "a": I1, "fails": [{"op": "runtime.is_assignable", "exc": "TypeError: x"}]}]),
-        15: ("viol:InternalError", case(15, {"code": "internal_error", "exc": "", "head": "Match value is not a literal"})),  # outside its fragment kind
+        # the behaviours of the repaired defects are violations now, not excused classes
+        15: ("viol:InternalError", case(15, {"code": "internal_error", "exc": "", "head": "Match value is not a literal"})),
+        16: ("viol:InternalError", case(16, {"code": "internal_error", "exc": "Internal error: AttributeError(\"'ellipsis' object has no attribute 'splitlines'\")"})),
+        17: ("viol:InternalError", case(17, {"code": "internal_error", "exc": "Internal error: RecursionError('maximum recursion depth exceeded')"})),
+        18: ("viol:InternalError", case(18, {"code": "internal_error", "exc": "Internal error: TypeError('unbound method type.mro() needs an argument')"})),
+        19: ("viol:InternalError", case(19, {"code": "internal_error", "exc": "Internal error: IndexError('list index out of range')"})),
+        20: ("viol:IllFormedDiagnostic", case(20, {"col": 40, "origin": "fwd"})),   # a position relative to a string annotation
+        21: ("viol:ValueOperationRaised", [{"tid": 21, "event": "ValueOp", "a": HR, "b": I1, "fails": [{"op": "hash", "exc": "RuntimeError: __hash__ raises"}]}]),
+        22: ("viol:RuntimeApiRaised", [{"tid": 22, "event": "RtOp", "o": HR["o"], "a": I1, "fails": [{"op": "runtime.is_assignable", "exc": "RuntimeError: __hash__ raises"}]}]),
     }
+    # a line that str.splitlines() would cut: the context must show the whole physical line (9834ac5); pieces are rejected
+    src2 = "def f():\n    return (\"a\x0cb\", zz_mark)\n"
+    evs2 = observe_source(0, src2, {"slice": "frag", "prog": []}, lambda n: 0, _no_marker)
+    good2 = next(e for e in evs2 if e["event"] == "Diag" and e["code"] == "undefined_name")
+    pieces = evs2[0]["lines"][1]["p"]
+    if len(pieces) != 2:
+        raise core.MachineryError(f"self-test: expected a line in two pieces, got {evs2[0]['lines']}")
+    split_ctx = [{"n": 1, "t": evs2[0]["lines"][0]["t"]}, {"n": 2, "t": pieces[0]}, {"n": 3, "t": pieces[1]}]
+    expect[23] = ("ok", [{**evs2[0], "tid": 23}, {**good2, "tid": 23}, {"tid": 23, "event": "End", "skipped": False}])
+    expect[24] = ("viol:ContextNotFromFile", [{**evs2[0], "tid": 24}, {**good2, "tid": 24, "ctx": split_ctx}, {"tid": 24, "event": "End", "skipped": False}])
     verdicts, stats = adjudicate([evs for _, evs in expect.values()], parallel=1)
     check.add_trace_stats(stats)
     for tid, (want, _) in expect.items():
@@ -553,8 +574,9 @@ def run(check: core.Check) -> None:
         "them; layouts: 16 sites x 12 paddings x lines around x terminators (exhaustive core + simulation)",
         "well-formed values: objects wrapped by KnownValue follow the data model where the checker has to rely on it "
         "(__repr__ returns a str, __getattr__ raises AttributeError only); __eq__, __bool__, __hash__ may raise",
-        "constructs on which the unchanged tree is known to deviate (value pattern that is not a literal, self-referential "
-        "list[\"Alias\"] string alias) are confined to fragment kinds of their own so that the class predicates stay exact",
+        "seven defects found by this check are repaired in /repo (known_findings.jsonl, status fixed); the specification requires "
+        "the repaired behaviour (FixedLines / FixedFwd = TRUE; no excused internal_error / raising value operation); one class "
+        "is open: column-is-utf8-byte-offset",
     ]
     # (1) the position model, exhaustively, with its sensitivity configurations
     with ThreadPoolExecutor(6) as ex:
